@@ -371,12 +371,14 @@ func (c *Float) Ident() string {
 			return fmt.Sprintf("0x%X", bits)
 		}
 		if c.X.IsInf() || !float.IsExact32(c.X) {
-			f, _ := c.X.Float64()
-			bits := math.Float64bits(f)
+			// Round to the nearest float; a value that is not a float (e.g. from
+			// NewFloat(types.Float, 0.1)) must not be truncated, and beyond the
+			// range of float it is an infinity or a subnormal, not a double
+			// pattern with its last 29 bits cut off (which LLVM rejects).
+			f32, _ := c.X.Float32()
+			bits := math.Float64bits(float64(f32))
 			// Note, to match Clang output we do not zero-pad the hexadecimal
 			// output.
-			// zero out last 29 bits.
-			bits &^= 0x1FFFFFFF
 			return fmt.Sprintf("0x%X", bits)
 		}
 		// c is representable without loss as floating-point literal, this case is
